@@ -150,6 +150,8 @@ def _loops(toks, lo, hi):
 def ghost_tok(text):
     return Tok("ghost", text, "", ghost=True)
 
+_TOK_CACHE = {}
+
 class Extracted:
     def __init__(self):
         self.id = None; self.file = None; self.item = None
@@ -171,7 +173,11 @@ def extract(repo, spec, contracts, mode, mutate=None):
     except OSError as e:
         raise UnitError(f"lost anchor: cannot read {spec['file']}: {e}")
     try:
-        toks, _ = tokenize(src)
+        key = (path, hash(src))
+        if key not in _TOK_CACHE:
+            _TOK_CACHE.clear() if len(_TOK_CACHE) > 8 else None
+            _TOK_CACHE[key] = tokenize(src)[0]
+        toks = _TOK_CACHE[key]
         it = find_item(toks, [c.strip() for c in spec["item"].split("/")])
     except ScanError as e:
         raise UnitError(f"lost anchor: {spec['file']} :: {spec['item']}: {e}")
@@ -263,7 +269,7 @@ def _add_canary(text, fid):
         elif t.kind == "punct" and t.text in ")]}": depth -= 1
         elif depth == 0 and t.kind == "ident" and t.text == "ensures" and pos is None: pos = t.end
         elif depth == 0 and t.kind == "ident" and t.text == "decreases" and dec is None: dec = t.start
-    lab = f"\n//# canary\n{name}(),\n//#-\n"
+    lab = f"\n//# canary\ncrate::{name}(),\n//#-\n"
     if pos is not None:
         return text[:pos] + lab + text[pos:]
     if dec is not None:
@@ -318,9 +324,11 @@ def build(unit_dir, repo, mode="verify", mutate=None):
             mu = (mutate[1], mutate[2]) if (mutate and mutate[0] == sp["id"]) else None
             ex = extract(repo, sp, contracts, mode, mu)
             used.add(sp["id"])
+            if sp.get("wrap"): out_lines.append(sp["wrap"])
             ex.gen_lo = len(out_lines) + 1
             out_lines.extend(ex.text.split("\n"))
             ex.gen_hi = len(out_lines)
+            if sp.get("wrap"): out_lines.append("}")
             B.items.append(ex)
             if mode == "canary" and ex.is_fn and sp.get("canary", "1") != "0":
                 canaries.append("canary_" + re.sub(r"\W", "_", ex.id))
@@ -329,7 +337,7 @@ def build(unit_dir, repo, mode="verify", mutate=None):
     if mutate and mutate[0] not in used: raise UnitError(f"mutant targets unknown item {mutate[0]}")
     text = "\n".join(out_lines)
     if canaries:
-        decl = "\n".join(f"pub uninterp spec fn {c}() -> bool;" for c in canaries)
+        decl = " ".join(f"pub uninterp spec fn {c}() -> bool;" for c in canaries)   # one line: keeps line numbers
         if "//@@canary-decls" not in text and "// @canary-decls" not in text:
             raise UnitError("template lacks the `// @canary-decls` marker")
         text = text.replace("// @canary-decls", decl)
